@@ -24,6 +24,8 @@ import Otel.C08.HistTwin
 import Otel.C08.HistAsync
 import Otel.C08.HistInterval
 import Otel.C08.SysOracle
+import Otel.C08.CbErr
+import Otel.C08.SelfConsistent
 import Otel.C02.Props
 namespace Otel.C08
 open Otel.C02 Otel.C02.Spec
@@ -476,6 +478,79 @@ example :
     (d.2.map fun r => r.map fun kv => (kv.1, kv.2.counts)) = [[(1, [0, 1, 1])], [(1, [1, 0, 0]), (2, [0, 1, 0])]] ∧
     repTotal (fun v => v.total) d.2 1 = 52 ∧
     (c.2.getLast?.map fun r => r.map fun kv => (kv.1, kv.2.counts)) = some [(1, [1, 1, 1]), (2, [0, 1, 0])] := by
+  decide
+
+/-- Callback errors (follow-up, seeded C08-4).  `pipeline.produce` joins the errors of the observable callbacks and
+carries on, returning the joined error TOGETHER with the collected data: in the wrapped model a failing callback
+script changes the error status of the collections and nothing else — the twin system after any history with
+`cberr` steps IS the twin system after the same history without them. -/
+theorem callback_error_does_not_affect_data (is : List InstCfg) (slots : List (List Nat)) (xs : List XOp) :
+    (XSys.run is slots xs).sys = Sys.run is slots (eraseErr xs) := by
+  have key : ∀ (xs : List XOp) (x : XSys), (xs.foldl XSys.step x).sys = (eraseErr xs).foldl Sys.step x.sys := by
+    intro xs
+    induction xs with
+    | nil => intro x; rfl
+    | cons o l ih =>
+      intro x
+      cases o with
+      | cberr => simpa [eraseErr, XSys.step] using ih { x with failNext := true }
+      | op o =>
+        have h : (x.step (.op o)).sys = x.sys.step o := by cases o <;> rfl
+        simp only [List.foldl_cons, eraseErr, List.filterMap_cons]
+        rw [ih, h]
+        rfl
+  exact key xs _
+
+/-- … hence every clause of the oracle holds of the data reported through failing callbacks exactly as without
+them (`twin_all_clauses` transported along `callback_error_does_not_affect_data`); and every collection has an error
+status (two per cycle, in record order). -/
+theorem twin_all_clauses_with_callback_errors (is : List InstCfg) (slots : List (List Nat)) (xs : List XOp) :
+    oracle is slots (eraseErr xs) (modelORecs (XSys.run is slots xs).sys.recs) = true := by
+  rw [callback_error_does_not_affect_data]
+  exact twin_all_clauses is slots (eraseErr xs)
+
+/-- Point self-consistency (follow-up, seeded C08-3): along every step sequence of the real histogram functions
+(either temporality, any cardinality limit) every cell ever reported has a complete bucket vector whose entries add
+up to its count — the form `pointsSelfConsistent` checks on every observed histogram and exponential-histogram point
+(for the latter: zero + positive + negative = Count). -/
+theorem hist_points_self_consistent (tp : Temporality) (steps : List Step) (s : Hist × List (AMap HistVal))
+    (hs : HistSC s.1) (hr : ∀ r ∈ s.2, ∀ kv ∈ r, CellSC (s.1.bounds.length + 1) kv.2) :
+    let s' := Hist.runG tp s steps
+    ∀ r ∈ s'.2, ∀ kv ∈ r, kv.2.count = kv.2.counts.sum := by
+  have key : ∀ (steps : List Step) (s : Hist × List (AMap HistVal)), HistSC s.1 →
+      (∀ r ∈ s.2, ∀ kv ∈ r, CellSC (s.1.bounds.length + 1) kv.2) →
+      ∀ r ∈ (Hist.runG tp s steps).2, ∀ kv ∈ r, CellSC (s.1.bounds.length + 1) kv.2 := by
+    intro steps
+    induction steps with
+    | nil => intro s _ hr; exact hr
+    | cons x l ih =>
+      intro s hs hr
+      cases x with
+      | measure a v id =>
+        exact ih (s.1.measure a v, s.2) (Hist.sc_measure s.1 hs a v) hr
+      | collect t =>
+        obtain ⟨h1, h2, h3⟩ := Hist.sc_collect s.1 hs tp t
+        have := ih ((s.1.collect tp t).1, s.2 ++ [(s.1.collect tp t).2.map fun p => (p.attr, p.val)]) h1 (by
+          simp only [h2]
+          intro r hr1 kv hkv
+          rcases List.mem_append.mp hr1 with hr1 | hr1
+          · exact hr r hr1 kv hkv
+          · simp only [List.mem_singleton] at hr1
+            subst hr1
+            simp only [List.mem_map] at hkv
+            obtain ⟨p, hp, rfl⟩ := hkv
+            exact h3 p hp)
+        simp only [h2] at this
+        exact this
+  intro s' r hr1 kv hkv
+  exact (key steps s hs hr r hr1 kv hkv).2
+
+/-- non-vacuity: a failing callback script between two cycles; the data are those of the history without it -/
+example :
+    let is : List InstCfg := [⟨false, .obsCounter, .dflt, true⟩, ⟨false, .histogram, .expo, false⟩]
+    let xs : List XOp := [.op (.obs 0 1 5), .op (.record 1 1 (-3)), .cberr, .op .col, .op (.record 1 1 7), .op .col]
+    (XSys.run is [] xs).errs = [(0, true, true), (0, false, true), (1, true, false), (1, false, false)] ∧
+    (XSys.run is [] xs).sys.recs.length = 4 := by
   decide
 
 end Otel.C08
